@@ -26,7 +26,31 @@ def r6_3(ctx, rc):
     guards(ctx).check(rc, columns={'OPVERSION_EQ'}, rule_prefix='version')
 
 
+def r6_5(ctx, rc):
+    """Versions are persisted verbatim and read back into the same field
+    (R16.2 for funcVersions / operationVersions), and come from the
+    sanitised API parameter."""
+    from .c16 import r16_2
+    r16_2(ctx, rc)
+    C = ctx.R.cache
+    G = ctx.E.func(C + '.get_func_version')
+    ok = False
+    for n in ast.walk(G.node):
+        if isinstance(n, ast.Return) and isinstance(n.value, ast.Call) and \
+                isinstance(n.value.func, ast.Attribute) and \
+                n.value.func.attr == 'get' and len(n.value.args) == 1:
+            ok = True
+    key = 'absent version reads as None'
+    if ok:
+        rc.ok({'getter': 'dict.get(name) -> None when absent'}, key=key)
+    else:
+        rc.violation('version-getter | ' + G.qualname,
+                     'get_func_version is not a plain dict.get(name): an '
+                     'absent version must read as None', G.file, key=key)
+
+
 RULES = [
     ('R6.1', 'version equality guards every complex reuse decider', r6_1),
     ('R6.3', 'operation-version equality guards the simple decider', r6_3),
+    ('R6.5', 'versions are persisted verbatim and read back', r6_5),
 ]
